@@ -52,8 +52,23 @@ def _build_all():
 F32, I32, I64, U8, BOOL, F16 = np.float32, np.int32, np.int64, np.uint8, np.bool_, np.float16
 
 
+def late(fn):
+    """Library functions referenced directly (jnp.floor_divide, jax.nn.relu, ...) must be looked up
+    at CALL time: the converter substitutes module attributes while tracing, and a function object
+    captured when the family table was built would bypass the substitute (and its plugin)."""
+    if getattr(fn, "__name__", "<lambda>") == "<lambda>" or not callable(fn):
+        return fn
+    import jax
+    import jax.numpy as jnp
+
+    for mod in (jnp, jax.nn, jax.lax, jnp.linalg):
+        if getattr(mod, fn.__name__, None) is fn:
+            return (lambda m, n: (lambda *a, **k: getattr(m, n)(*a, **k)))(mod, fn.__name__)
+    return fn
+
+
 def P(fn, specs, **kw):
-    return Program(pid="", fn=fn, specs=[(tuple(s), np.dtype(d)) for s, d in specs], **kw)
+    return Program(pid="", fn=late(fn), specs=[(tuple(s), np.dtype(d)) for s, d in specs], **kw)
 
 
 # --------------------------------------------------------------------------- A1 elementwise
@@ -227,6 +242,7 @@ def _a1():
     core = {"neg": lax.neg, "abs": lax.abs, "floor": lax.floor, "round": lambda x: lax.round(x), "relu": jax.nn.relu,
             "sign": lax.sign, "half": lambda x: x * 0.5, "inc": lambda x: x + 1.0, "sq": lax.square, "ceil": lax.ceil,
             "jround": jnp.round, "trunc": jnp.trunc}
+    core = {k: late(v) for k, v in core.items()}
     for n1, f1 in core.items():
         for n2, f2 in core.items():
             _reg("A1", f"comp.{n2}.{n1}/f32_3", functools.partial(P, (lambda f1, f2: (lambda x: f2(f1(x))))(f1, f2), [((3,), F32)]), tier="thorough")
